@@ -380,7 +380,7 @@ def serve_object(req: Req, obj: dict[str, Any], peers: dict[str, str] | None = N
 
     body            bytes as stored (already content-encoded when ``ce`` is set)
     ce              Content-Encoding the origin names (None: header absent)
-    redirect        {"HEAD"|"GET"|"RANGE"|"PROBE": {"n": hops | "endless" | "selfloop",
+    redirect        {"HEAD"|"GET"|"RANGE"|"PROBE": {"after_drops": k, "drop_mode": True (RST) | "fin", "n": hops | "endless" | "selfloop",
                      "status": 302, "last": "next"|"forbidden_origin"|"forbidden_path"|"forbidden_host"|
                      "nolocation"|"invalid"|"file"|"relative", "secret": str appended to every Location's query}}
                     the hop index travels in the ``_h`` query parameter so the origin can see how
@@ -418,6 +418,10 @@ def serve_object(req: Req, obj: dict[str, Any], peers: dict[str, str] | None = N
     if red is not None:
         hop = hop_of(req.query)
         req.entry["hop"] = hop
+        # "after_drops": k - the first k attempts of this request are dropped before any response byte, the
+        # redirect is only served to a later attempt (a client-side reconnect / retry path)
+        if req.seen < int(red.get("after_drops", 0)):
+            return {"drop": red.get("drop_mode", "fin")}
         n = red.get("n", 1)
         status = int(red.get("status", 302))
         secret = red.get("secret")
